@@ -138,11 +138,20 @@ class Repo:
             raise AnchorError(f"{modname}:{qual} not found")
         return m.defs[qual]
 
-    def func(self, modname: str, qual: str) -> ast.FunctionDef:
+    def func(self, modname: str, qual: str, canon: bool = True) -> ast.FunctionDef:
+        """the (canonicalised: helpers inlined, single-assignment locals and module constants substituted) function"""
         d = self.get(modname, qual)
         if not isinstance(d, (ast.FunctionDef, ast.AsyncFunctionDef)):
             raise AnchorError(f"{modname}:{qual} is not a function")
+        if canon and not os.environ.get("VF_NO_CANON"):
+            return self.canon(self.modules[modname], d)
         return d  # type: ignore[return-value]
+
+    def canon(self, mod: "Module", fn: ast.FunctionDef) -> ast.FunctionDef:
+        if not hasattr(self, "_canonicalizer"):
+            from .canon import Canonicalizer
+            self._canonicalizer = Canonicalizer(self)
+        return self._canonicalizer.canon(mod, fn)
 
     def cls(self, modname: str, qual: str) -> ast.ClassDef:
         d = self.get(modname, qual)
